@@ -422,3 +422,27 @@ func (f *frame) readerConsume(st *State, r Val, n T, err T) {
 	st.ghost["reader_err"] = VInt{err}
 	st.ghost["reader_n"] = VInt{n}
 }
+
+// utf8.FullRune: exact finite-case formula over the first three bytes (RFC 3629 tables as in
+// unicode/utf8: invalid lead bytes count as complete one-byte error runes).
+func init() {
+	models["unicode/utf8.FullRune"] = func(f *frame, st *State, ins *ssa.Call, a []Val) Val {
+		s, ms := bytesOf(st, a[0])
+		b := func(i int64) T { return tSel(ms, tIdx(s.Off, num(i))) }
+		p0 := b(0)
+		sz := tIte(tAnd(tLe("194", p0), tLe(p0, "223")), "2", tIte(tAnd(tLe("224", p0), tLe(p0, "239")), "3", tIte(tAnd(tLe("240", p0), tLe(p0, "244")), "4", "1")))
+		cont := func(x T) T { return tAnd(tLe("128", x), tLe(x, "191")) }
+		second := func(l, x T) T {
+			return tIte(tEq(l, "224"), tAnd(tLe("160", x), tLe(x, "191")),
+				tIte(tEq(l, "237"), tAnd(tLe("128", x), tLe(x, "159")),
+					tIte(tEq(l, "240"), tAnd(tLe("144", x), tLe(x, "191")),
+						tIte(tEq(l, "244"), tAnd(tLe("128", x), tLe(x, "143")), cont(x)))))
+		}
+		full := tAnd(tLt("0", s.Len), tOr(tGe(s.Len, sz),
+			tAnd(tLt("1", s.Len), tNot(second(p0, b(1)))),
+			tAnd(tLt("2", s.Len), tNot(cont(b(2))))))
+		r := f.ex.decls.fresh("fullRune", SBool)
+		st.assume(tEq(r, full))
+		return VBool{r}
+	}
+}
